@@ -3,6 +3,7 @@ C05 — cursors enumerate keys in byte order and navigate consistently.
 Property theorems only; helper lemmas live in `Bolt/Lemmas/Cursor.lean`.
 -/
 import Bolt.Lemmas.Cursor
+import Bolt.Lemmas.CursorF11
 namespace Bolt.C05
 open Bolt Bolt.Cur
 
@@ -16,7 +17,7 @@ deriving Repr
 def stepImpl (d fuel : Nat) (t : Tree) (st : Stack) : Op → Stack × Option Item
   | .first => first d fuel t
   | .last => last d fuel t
-  | .next => next d fuel st
+  | .next => nextPub d fuel t st
   | .prev => prev d fuel t st
   | .seek k => seek d fuel t k
 
@@ -151,47 +152,91 @@ theorem seek_spec (t : Tree) (d fuel : Nat) (k : Bytes) (hwf : BranchesNonEmpty 
 
 /-! ### mixed navigation = a sorted list with a position -/
 
+/- The step theorem as first stated, over the relation `RepC` of `Lemmas/Cursor.lean`:
+
+    theorem step_refines … (h : RepC t st c) (op : Op) :
+        RepC t (stepImpl d fuel t st op).1 (stepSpec c op).1 ∧
+          (stepImpl d fuel t st op).2.map Item.view = (stepSpec c op).2
+
+   is FALSE for the repaired `Next` (`step_refines_RepC_false` below): `RepC` allows a stack that
+   is past the end of a leaf while emptied leaves still lie to its right; from there `nextPub`
+   skips the emptied leaf, finds nothing and re-positions on the last key, while the
+   specification stays past the end.  No public call ever leaves the cursor in such a stack
+   (`first`/`Seek` run the internal `next` to the very end), so the relation is strengthened to
+   `RepE = RepC ∧ EndOK` (`Lemmas/CursorF11.lean`), which IS preserved by every call;
+   `cursor_refines_spec` below is unchanged and holds as stated. -/
 theorem step_refines {t : Tree} {d fuel : Nat} (hwf : BranchesNonEmpty t) (hs : SearchTree t)
-    (hne : NoEmptyLeafBelowRoot t) (hd : depth t ≤ d) (hf : size t ≤ fuel) {st : Stack} {c : CurSpec}
-    (h : RepC t st c) (op : Op) :
-    RepC t (stepImpl d fuel t st op).1 (stepSpec c op).1 ∧
+    (hd : depth t ≤ d) (hf : size t ≤ fuel) {st : Stack} {c : CurSpec}
+    (h : RepE t st c) (op : Op) :
+    RepE t (stepImpl d fuel t st op).1 (stepSpec c op).1 ∧
       (stepImpl d fuel t st op).2.map Item.view = (stepSpec c op).2 := by
   cases op with
-  | first => exact first_refines hwf hd hf h.1
-  | last => exact last_refines hwf hd hf h.1
-  | next => exact next_refines hwf hd hf hne h
-  | prev => exact prev_refines hwf hd hf h
-  | seek k => exact seek_refines hwf hd hf hs k h.1
+  | first => exact first_refinesE hwf hd hf h.1.1
+  | last => exact last_refinesE hwf hd hf h.1.1
+  | next => exact nextPub_refines hwf hd hf h
+  | prev => exact prev_refinesE hwf hd hf h
+  | seek k => exact seek_refinesE hwf hd hf hs k h.1.1
 
 theorem run_refines {t : Tree} {d fuel : Nat} (hwf : BranchesNonEmpty t) (hs : SearchTree t)
-    (hne : NoEmptyLeafBelowRoot t) (hd : depth t ≤ d) (hf : size t ≤ fuel) :
-    ∀ (ops : List Op) (st : Stack) (c : CurSpec), RepC t st c → runImpl d fuel t st ops = runSpec c ops
+    (hd : depth t ≤ d) (hf : size t ≤ fuel) :
+    ∀ (ops : List Op) (st : Stack) (c : CurSpec), RepE t st c → runImpl d fuel t st ops = runSpec c ops
   | [], _, _, _ => rfl
   | op :: ops, st, c, h => by
-    have hstep := step_refines hwf hs hne hd hf h op
+    have hstep := step_refines hwf hs hd hf h op
     simp only [runImpl, runSpec]
-    rw [hstep.2, run_refines hwf hs hne hd hf ops _ _ hstep.1]
+    rw [hstep.2, run_refines hwf hs hd hf ops _ _ hstep.1]
 
 /-- **Any mixture of First/Last/Next/Prev/Seek returns what the same calls return on the
     sorted key list with a position**; running off either end yields nil and the position
-    stays on the last/first key.  Proved for trees without empty leaves (every read-only
-    transaction and every freshly committed tree; a root leaf may be empty = empty bucket).
-    With leaves emptied earlier in the same write transaction the statement is FALSE on the
-    pinned code (known finding F11, `refinement_fails_with_trailing_empty_leaf`). -/
-theorem cursor_refines_spec_partial (t : Tree) (d fuel : Nat) (ops : List Op)
-    (hwf : BranchesNonEmpty t) (hs : SearchTree t) (hne : NoEmptyLeafBelowRoot t)
+    stays on the last/first key — for every search-tree-ordered tree, leaves emptied earlier in
+    the same write transaction included (since the repair of F11: `Cursor.Next` running off the
+    end across emptied pages now leaves the cursor on the last element). -/
+theorem cursor_refines_spec (t : Tree) (d fuel : Nat) (ops : List Op)
+    (hwf : BranchesNonEmpty t) (hs : SearchTree t)
     (hd : depth t ≤ d) (hf : size t ≤ fuel) :
     runImpl d fuel t [] ops = runSpec (specOf t) ops := by
-  exact run_refines hwf hs hne hd hf ops [] (specOf t) ⟨rfl, rfl⟩
+  exact run_refines hwf hs hd hf ops [] (specOf t) ⟨⟨rfl, rfl⟩, endOK_nil⟩
 
-/-- F11 witness: two leaves, the second emptied; Last, Next (nil), Prev. The model (like the
-    code) answers the last key again; the sorted-list specification answers the key before. -/
+/-- the statement proved before the repair (trees without empty leaves), now a corollary -/
+theorem cursor_refines_spec_partial (t : Tree) (d fuel : Nat) (ops : List Op)
+    (hwf : BranchesNonEmpty t) (hs : SearchTree t) (_hne : NoEmptyLeafBelowRoot t)
+    (hd : depth t ≤ d) (hf : size t ≤ fuel) :
+    runImpl d fuel t [] ops = runSpec (specOf t) ops :=
+  cursor_refines_spec t d fuel ops hwf hs hd hf
+
+/-- the F11 witness: two leaves, the second emptied; Last, Next (nil), Prev.  Before the repair
+    the code answered the last key again; now it answers the key before it, as the sorted-list
+    specification does. -/
 def f11Tree : Tree :=
   .branch [([1], .leaf [⟨[1], [], 0⟩, ⟨[2], [], 0⟩]), ([3], .leaf [])]
 
-theorem refinement_fails_with_trailing_empty_leaf :
-    runImpl 4 4 f11Tree [] [.last, .next, .prev] ≠ runSpec (specOf f11Tree) [.last, .next, .prev] := by
+theorem f11_repaired :
+    runImpl 4 4 f11Tree [] [.last, .next, .prev] = runSpec (specOf f11Tree) [.last, .next, .prev] := by
   decide
+
+/-- the unrepaired `Next` (the internal `next`, still used by `first`/`Seek`) on the witness:
+    what the finding was -/
+theorem f11_before_repair :
+    (let s1 := (last 4 4 f11Tree).1; let s2 := (next 4 4 s1).1; (prev 4 4 f11Tree s2).2.map Item.view)
+      = some ([2], some []) := by
+  decide
+
+/-- why `step_refines` is stated over `RepE` and not over `RepC`: a stack allowed by `RepC` (past
+    the end of the first leaf, the emptied leaf still to its right — never produced by the
+    code) from which the repaired `Next` moves onto the last key while the specification stays
+    past the end -/
+def f11BadStack : Stack := [⟨.leaf [⟨[1], [], 0⟩, ⟨[2], [], 0⟩], 2⟩, ⟨f11Tree, 0⟩]
+def f11BadSpec : CurSpec := { keys := (flatten f11Tree).map Item.view, pos := some 2 }
+
+theorem step_refines_RepC_false :
+    RepC f11Tree f11BadStack f11BadSpec ∧
+      ¬ RepC f11Tree (stepImpl 4 4 f11Tree f11BadStack .next).1 (stepSpec f11BadSpec .next).1 := by
+  constructor
+  · refine ⟨rfl, ⟨by decide, by decide, by decide, rfl, rfl⟩, ⟨rfl, by decide, by decide⟩, by decide, ?_⟩
+    intro h; exact absurd rfl h
+  · intro h
+    have h2 : Rep f11Tree (stepImpl 4 4 f11Tree f11BadStack .next).1 (some 2) := h.2
+    exact absurd h2.2.2.1 (by decide)
 
 /-! ### every call returns -/
 
